@@ -116,3 +116,29 @@ theorem C05_read_is_atomic (cfg : Wit.Cfg) (s : Option Bytes) :
     specStep (decRW cfg) s RW.read = (s, RWOut.read s) := rfl
 
 end C05
+
+namespace C05
+open Lin Wit
+
+/-- a linearisation of requests that all name the log `id` is a run of the sequential witness over a store
+    whose slot for `id` holds the initial value: same outcomes, same final value -/
+theorem replays_is_run (cfg : Cfg) (id : Bytes) (reqs : List Req) (hall : ∀ (i : Nat) (q : Req), reqs[i]? = some q → q.logID = id) :
+    ∀ (slot : Option Bytes) (lin : List (Nat × Out)) (slot' : Option Bytes),
+      Replays (decOf cfg) reqs slot lin slot' → ∀ (s : Store), s.get id = slot →
+      (run cfg s (lin.filterMap (fun p => reqs[p.1]?))).2 = lin.map (·.2) ∧
+      (run cfg s (lin.filterMap (fun p => reqs[p.1]?))).1.get id = slot' := by
+  intro slot lin slot' h
+  induction h with
+  | nil s0 => intro s hs; simp [run, hs]
+  | cons s0 i q r rest s' hq hr _ ih =>
+    intro s hs
+    have hid := hall i q hq
+    have hspec := C05_spec_is_sequential_step cfg s q
+    rw [hid, hs] at hspec
+    simp only [List.filterMap_cons, hq, List.map_cons]
+    have ih' := ih (step cfg s q).1 hspec.2.symm
+    simp only [run]
+    refine ⟨?_, ih'.2⟩
+    rw [ih'.1, ← hr, hspec.1]
+
+end C05
